@@ -344,8 +344,13 @@ def _main(mod, pid, tier, seed, args, t0):
             cases.extend(suite.cases(rng, tier, widen))
             batch_lines, batch_meta = [], []
             sstat = stats["suites"].setdefault(suite.name, {"cases": 0, "corpus": ncorpus, "lines": 0, "disagreements": 0, "findings": 0})
+            n_timeouts = 0
             for case in cases:
+                if n_timeouts >= 4:
+                    break  # the implementation hangs on this family; the findings so far are enough for the decision
                 res = run_case(suite, case)
+                if isinstance(res, dict) and res.get("exc") == "Timeout":
+                    n_timeouts += 1
                 stats["evaluations"] += 1
                 sstat["cases"] += 1
                 h = hashlib.sha1((suite.name + canon(case)).encode()).hexdigest()
